@@ -406,6 +406,10 @@ def run_ops(case):
     viol, stats = [], {}
     secs = [(b"core",), (b"Remote", b"Origin"), (b"remote", b"origin"), (b"branch", b"a.b c"), (b"x", b'q"\\')]
     keys = [b"url", b"Fetch", b"fetch", b"k-1"]
+    if case.get("focus"):
+        # few names, so that one key is hit again and again (multi-valued keys that are then set, re-added, removed, re-read)
+        secs = rng.sample(secs, 1) if rng.random() < 0.5 else [(b"Remote", b"Origin"), (b"remote", b"Origin")]
+        keys = rng.choice([[b"Fetch", b"fetch"], [b"url", b"Fetch", b"fetch"], [b"k-1"]])
     trace = []
     for step in range(case.get("steps", 10)):
         op = rng.choice(["set", "set", "add", "del", "delsec", "reload"])
@@ -415,6 +419,10 @@ def run_ops(case):
         v = gen_value(rng)
         if b"\0" in v:
             v = b"z"
+        if rng.random() < 0.5:
+            # values recur: a small pool, and the values the key already holds (its first, its last, one in the middle), so that an
+            # operation meets a key whose current content coincides with its argument
+            v = rng.choice([b"a", b"b", b"a b"] + model.get(mk, []))
         trace.append([op, repr(sec), repr(key), core.hx(v)])
         try:
             if op == "set":
@@ -521,6 +529,7 @@ def main(ctx):
                       "values": [core.hx(v) for v in g2[i:i + 12]]})
     for i in range(ctx.budget(300, 4000)):
         cases.append({"kind": "ops", "seed": "%d/o/%d" % (ctx.seed, i), "steps": 10})
+        cases.append({"kind": "ops", "seed": "%d/of/%d" % (ctx.seed, i), "steps": 14, "focus": True})
     ctx.rule = ("values: ALL byte strings of length <= %d over the 16-symbol special alphabet %s (exhaustive) plus random "
                 "longer ones; names/ops/git2d: seeded random. non-trivial = distinct (special-character class, length) "
                 "for values, distinct (feature, size) for the others; plain alphanumeric values are trivial." % (
